@@ -22,6 +22,7 @@ import (
 	"sort"
 	"strconv"
 	"strings"
+	"sync"
 	"time"
 
 	"github.com/google/martian/v3"
@@ -35,8 +36,10 @@ import (
 )
 
 const (
-	nDirect = 8
-	nProxy  = 4
+	nDirect   = 8
+	nProxy    = 4
+	nConc     = 4
+	nConcRace = 2
 )
 
 func main() {
@@ -54,6 +57,7 @@ func main() {
 			"in proxy mode Host, Content-Length, Transfer-Encoding, Trailer and a Connection header consisting only of close/keep-alive are the proxy's own framing for the next hop and are not counted as survivors",
 			"Connection lists never name Via, X-Forwarded-*, Host or Content-Length; loop entries are never combined with bad framing; Transfer-Encoding values spell 'chunked' in lower case",
 		},
+		RaceFiles: []string{"/header/", "/httpspec/"},
 		Plan: func(tier string, seed int64) []vh.Batch {
 			var bs []vh.Batch
 			for i := 0; i < nDirect; i++ {
@@ -61,6 +65,12 @@ func main() {
 			}
 			for i := 0; i < nProxy; i++ {
 				bs = append(bs, vh.Batch{Name: fmt.Sprintf("proxy-%d", i), TimeoutS: 900})
+			}
+			for i := 0; i < nConc; i++ {
+				bs = append(bs, vh.Batch{Name: fmt.Sprintf("conc-%d", i), TimeoutS: 900})
+			}
+			for i := 0; i < nConcRace; i++ {
+				bs = append(bs, vh.Batch{Name: fmt.Sprintf("conc-race-%d", i), Race: true, TimeoutS: 1500})
 			}
 			return bs
 		},
@@ -77,6 +87,9 @@ type c14Case struct {
 	Mode   string `json:"mode"` // parsed | built | proxy
 	Stream string `json:"stream"`
 	Idx    int    `json:"idx"`
+	// Conc > 0: the case ran on a stack shared with Conc goroutines that were
+	// pushing other messages of the same stream through it at the same time.
+	Conc int `json:"concurrent_goroutines,omitempty"`
 }
 
 var fixedHBH = []string{"connection", "keep-alive", "proxy-authenticate", "proxy-authorization", "proxy-connection", "te", "trailer", "transfer-encoding", "upgrade"}
@@ -809,8 +822,15 @@ func (d *direct) one(r *vh.Run, c c14Case) {
 	if mErr != nil {
 		witness["modify_request_error"] = mErr.Error()
 	}
-	viol := func(v verdict) { r.ViolationCase(c, v.sig, "["+c.Mode+"] "+v.what, witness) }
+	tag := c.Mode
+	if c.Conc > 0 {
+		tag += fmt.Sprintf(", stack shared by %d goroutines", c.Conc)
+	}
+	viol := func(v verdict) { r.ViolationCase(c, v.sig, "["+tag+"] "+v.what, witness) }
 	cls := h.class() + "|mode=" + c.Mode
+	if c.Conc > 0 {
+		r.Count("messages_on_a_shared_stack", 1)
+	}
 
 	switch {
 	case h.self != "":
@@ -931,6 +951,49 @@ func runDirect(r *vh.Run, k int) {
 		r.SetCase(c)
 		d.one(r, c)
 	}
+}
+
+// runConc pushes the messages of a stream through ONE stack from several
+// goroutines at once, as the proxy does with concurrent connections; the
+// per-message oracle is the one of the sequential driver.
+func runConc(r *vh.Run, k int, race bool) {
+	total, n, G, stream := r.Pick(16000, 120000), nConc, 8, "c14-conc"
+	if race {
+		total, n, G, stream = r.Pick(3000, 24000), nConcRace, 4, "c14-conc-race"
+	}
+	per := total / n
+	d := newDirect()
+	const block = 1000
+	for from := 0; from < per; from += block {
+		to := from + block
+		if to > per {
+			to = per
+		}
+		r.Case(map[string]interface{}{"kind": "conc-block", "stream": stream, "from": k*per + from, "to": k*per + to - 1, "goroutines": G})
+		runConcBlock(r, d, stream, k*per+from, k*per+to, G)
+	}
+}
+
+func runConcBlock(r *vh.Run, d *direct, stream string, from, to, G int) {
+	var wg sync.WaitGroup
+	start := make(chan struct{})
+	for g := 0; g < G; g++ {
+		wg.Add(1)
+		go func(g int) {
+			defer wg.Done()
+			<-start
+			for idx := from + g; idx < to; idx += G {
+				mode := "parsed"
+				if idx%2 == 1 {
+					mode = "built"
+				}
+				d.one(r, c14Case{Kind: "c14", Mode: mode, Stream: stream, Idx: idx, Conc: G})
+			}
+		}(g)
+	}
+	close(start)
+	wg.Wait()
+	r.Count("concurrent_blocks", 1)
 }
 
 // ---------------------------------------------------------------------------
@@ -1130,6 +1193,12 @@ func run(r *vh.Run, batch string) {
 	case strings.HasPrefix(batch, "proxy-"):
 		k, _ := strconv.Atoi(batch[6:])
 		runProxy(r, k)
+	case strings.HasPrefix(batch, "conc-race-"):
+		k, _ := strconv.Atoi(batch[10:])
+		runConc(r, k, true)
+	case strings.HasPrefix(batch, "conc-"):
+		k, _ := strconv.Atoi(batch[5:])
+		runConc(r, k, false)
 	}
 }
 
@@ -1142,6 +1211,15 @@ func replay(r *vh.Run, raw json.RawMessage) {
 	}
 	switch c.Mode {
 	case "parsed", "built":
+		if c.Conc > 0 {
+			// re-run the neighbourhood of the case concurrently on one stack, a few times
+			d := newDirect()
+			from := c.Idx - c.Idx%1000
+			for i := 0; i < 20; i++ {
+				runConcBlock(r, d, c.Stream, from, from+1000, c.Conc)
+			}
+			return
+		}
 		newDirect().one(r, c)
 	case "proxy":
 		p := newProxyRun()
